@@ -93,6 +93,21 @@ def random_wf(rng, maxn=4, heavy=False):
 def join_wf(rng):
     """join-heavy DAG: several parents feeding a join over edges of different
     (also non-divisible) volumes, plus a tail"""
+    if rng.random() < 0.3:
+        # steered shape: two branches that tend to run back-to-back on one machine
+        # while an independent long task keeps another machine busy, then a join
+        # whose incoming edges have very different volumes
+        a, b, c_ = rng.randint(1, 3), rng.randint(2, 4), rng.randint(1, 3)
+        big = rng.randint(a + b + c_ - 1, a + b + c_ + 2)
+        nodes = [{"k": 1, "comp": a, "data": 0}, {"k": 2, "comp": big, "data": 0},
+                 {"k": 3, "comp": b, "data": 0}, {"k": 4, "comp": c_, "data": 0},
+                 {"k": 5, "comp": rng.randint(1, 3), "data": 0}]
+        v1, v2 = rng.randint(4, 8), rng.randint(0, 2)
+        if rng.random() < 0.5:
+            v1, v2 = v2, v1
+        edges = [{"u": 1, "v": 3, "vol": rng.randint(0, 1)}, {"u": 1, "v": 4, "vol": rng.randint(0, 1)},
+                 {"u": 3, "v": 5, "vol": v1}, {"u": 4, "v": 5, "vol": v2}]
+        return {"nodes": nodes, "edges": edges, "steered": True}
     n = rng.randint(4, 7) if rng.random() < 0.75 else rng.randint(11, 13)
     nodes = [{"k": k, "comp": rng.choice([1, 2, 3, 4, 6, 8]), "data": rng.choice([0, 0, 0, 2, 5])}
              for k in range(1, n + 1)]
@@ -144,6 +159,13 @@ def random_cfg(rng, alg=None, family="roomy", nobs=None, maxn=4):
         for o in c["obs"]:
             o["wf"] = join_wf(rng)
             o["ing"] = min(o["ing"], c["maxIngest"])
+            if o["wf"].pop("steered", False):
+                c["machines"] = [{"id": "m0", "cpu": 1, "bw": c["machines"][0]["bw"]},
+                                 {"id": "m1", "cpu": 1, "bw": c["machines"][0]["bw"]}]
+                c["K"] = c["machines"][0]["bw"]
+                c["maxIngest"] = min(c["maxIngest"], 2)
+                for o2 in c["obs"]:
+                    o2["ing"] = min(o2["ing"], c["maxIngest"])
         c["extra"] = [e for e in c["extra"] if any(n["k"] == e["k"] for o in c["obs"] if o["o"] == e["o"] for n in o["wf"]["nodes"])]
         if c["alg"] == "batch":
             c["parts"] = min(c["parts"], nm)
